@@ -278,7 +278,13 @@ pub fn consistent_cfg() -> Cfg {
 }
 
 fn consistent_case() -> impl Strategy<Value = TreeCase> {
-    gen::scenario(consistent_cfg()).prop_flat_map(|scn| {
+    gen::scenario(consistent_cfg()).prop_flat_map(|mut scn| {
+        // the tree runner makes every call through the original: say so in the scenario (the comparison derives
+        // "a mock-induced panic through the original disables its verification without std" from `via`)
+        scn.clones = 0;
+        for c in scn.history.iter_mut() {
+            c.via = 0;
+        }
         let n = scn.clauses.len();
         (tree_strategy(n), proptest::bool::weighted(0.25)).prop_map(move |(tree, construct_while_unwinding)| TreeCase { scn: scn.clone(), tree, construct_while_unwinding })
     })
